@@ -347,9 +347,15 @@ def run_path(c: Contract, prefix, timeout_ms, root, src_index, res: TargetResult
     res.assumed.update(ctx.assumed)
     for k, v in getattr(ctx, "backend_used", {}).items():
         res.backends[k] = res.backends.get(k, 0) + v
+    occ = {}
     for ob in ctx.obligations:
-        key = (ob.label, ob.trace)
+        k0 = (ob.label, ob.trace)
+        occ[k0] = occ.get(k0, 0) + 1
+        # the n-th obligation with the same clause at the same branch point is
+        # a distinct obligation (several call sites between two branches)
+        key = (ob.label if occ[k0] == 1 else f"{ob.label} [#{occ[k0]}]", ob.trace)
         if key not in res.obligations:
+            ob.label = key[0]
             res.obligations[key] = ob
             res.choices[key] = list(getattr(ctx, "choices_made", []))
     return ctx, status
